@@ -93,7 +93,7 @@ def _minmax(name, args, kw):
     if _b.len(args) == 1 and not kw:
         args = list(args[0])
     if kw or not _any_sym(args):
-        return getattr(_b, name)(*args, **kw) if _b.len(args) > 1 or kw else getattr(_b, name)(args[0])
+        return getattr(_b, name)(args, **kw)
     r = args[0]
     for a in args[1:]:
         r = Ite((a > r) if name == "max" else (a < r), a, r)
